@@ -65,6 +65,22 @@ POW_TABLE = {2: lambda b: '(%s * %s)' % (b, b), 3: lambda b: '(%s * %s * %s)' % 
              0.5: lambda b: '(sqrt %s)' % b, -0.5: lambda b: '(/ sqrt %s)' % b, 1: lambda b: b}
 
 
+GETATTR_DEFAULTS = {}
+
+
+def getattr_default(n, env):
+    """`getattr(obj, 'name', <numeric constant>)` where (obj, name) is a known attribute: the generated definition takes the attribute as a
+    parameter; the default is what the caller must pass for objects without it (recorded in GETATTR_DEFAULTS and written into the file)"""
+    if (isinstance(n.func, ast.Name) and n.func.id == 'getattr' and len(n.args) == 3 and not n.keywords and isinstance(n.args[0], ast.Name)
+            and isinstance(n.args[1], ast.Constant) and isinstance(n.args[1].value, str)
+            and isinstance(n.args[2], ast.Constant) and isinstance(n.args[2].value, (int, float)) and not isinstance(n.args[2].value, bool)):
+        key = (n.args[0].id, n.args[1].value)
+        if key in env.attrs:
+            GETATTR_DEFAULTS[key] = n.args[2].value
+            return env.attrs[key]
+    return None
+
+
 class Tr:
     def __init__(self, env):
         self.env = env
@@ -125,6 +141,9 @@ class Tr:
         if isinstance(n, ast.IfExp):
             return '(if %s then %s else %s)' % (self.boolean(n.test), self.expr(n.body), self.expr(n.orelse))
         if isinstance(n, ast.Call):
+            g = getattr_default(n, env)
+            if g is not None:
+                return g
             return self.call(n)
         fail(n, 'expression form')
 
@@ -322,6 +341,8 @@ class TrE:
                     return '(Epow_neg %d %s)' % (int(-c), self.expr(n.left))
         if isinstance(n, ast.Call) and ast.unparse(n.func) == 'np.log' and len(n.args) == 1:
             return '(Eln %s)' % self.expr(n.args[0])
+        if isinstance(n, ast.Call) and getattr_default(n, env) is not None:
+            return '(Fin %s)' % getattr_default(n, env)
         fail(n, 'expression outside the NaN-aware subset')
 
 
@@ -367,6 +388,12 @@ def gen_links(repo):
                     fail(fn, 'link body must be a single return for the NaN-aware translation')
                 e = TrE(Env(names={arg: arg}, attrs={('dist', 'levels'): 'levels'})).expr(st[0].value)
                 out.append('Definition GenE_%s_link (levels : R) (%s : ER) : ER :=\n    %s.' % (cname, arg, e))
+    d = GETATTR_DEFAULTS.get(('dist', 'levels'))
+    if d is not None and d != 1:
+        raise Unsupported("getattr(dist, 'levels', %r): the models pass levels = 1 for distributions without levels" % (d,))
+    out.append('(* `levels` is dist.levels%s *)' % ("; the source reads it as getattr(dist, 'levels', 1): a distribution without the attribute counts as one trial"
+                                                 if d is not None else ''))
+    out.append('Definition Gen_levels_default : R := 1.')
     return '\n'.join(out) + '\n'
 
 
@@ -617,6 +644,35 @@ def generate(target, repo, coqdir):
         with open(path, 'w') as f:
             f.write(text)
     return path
+
+
+def generate_everything(repo, coqdir):
+    """regenerate every Gen file from `repo` (what `--all` does), quietly; returns {target: error}.  Called at the start of every
+    check so that coq/Gen never holds definitions (or failure stubs) of another tree."""
+    here = os.path.dirname(os.path.abspath(__file__))
+    if here not in sys.path:
+        sys.path.insert(0, here)
+    failed = {}
+    targets = list(GENERATORS)
+    for f in sorted(os.listdir(here)):
+        if f.startswith('gen_') and f.endswith('.py') and f[4:-3] not in targets:
+            targets.append(f[4:-3])
+    for f in sorted(os.listdir(here)):
+        if f.startswith('skel_') and f.endswith('.py'):
+            try:
+                mod = __import__(f[:-3])
+                if hasattr(mod, 'generate_all'):
+                    mod.generate_all(repo, coqdir)
+                elif hasattr(mod, 'generate'):
+                    mod.generate(repo, coqdir)
+            except Exception as e:
+                failed[f[:-3]] = '%s: %s' % (type(e).__name__, e)
+    for t in targets:
+        try:
+            generate(t, repo, coqdir)
+        except Exception as e:
+            failed[t] = '%s: %s' % (type(e).__name__, e)
+    return failed
 
 
 def main():
